@@ -274,12 +274,33 @@ impl Property for C11 {
             }
             2 => {
                 // a non-binary variable in a non-zero term
-                let extra = 424_242;
+                // (alone, squared, or only as the partner of a binary variable in a product, on either
+                // side; its id below, between or above the binary ids)
+                let taken: BTreeSet<u64> = inst.decision_variables.iter().map(|v| v.id).collect();
+                let lo = *taken.iter().next().unwrap_or(&1);
+                let candidates: Vec<u64> = [424_242u64, 0, lo.wrapping_sub(1), lo.wrapping_add(1), u64::MAX / 2 + 7].into_iter().filter(|c| !taken.contains(c)).collect();
+                let extra = *rng.pick(&candidates);
                 inst.decision_variables.push(dvar(extra, *rng.pick(&[KIND_INTEGER, KIND_CONTINUOUS]), Some((0.0, 1.0))));
                 let base = opt_fn(&inst.objective);
                 let mut terms: Vec<(Vec<u64>, f64)> = stored_terms(&base);
-                terms.push((vec![extra], 1.5));
-                inst.objective = Some(f_polynomial(polynomial(terms)));
+                let partner = *rng.pick(&ids);
+                let new_term = match rng.below(6) {
+                    0 | 1 => vec![extra],
+                    2 => vec![extra, extra],
+                    3 => vec![partner, extra],
+                    4 => vec![extra, partner],
+                    _ => vec![partner, extra, partner],
+                };
+                mon.facet(&format!("non-binary-variable-in-term-of-{}-ids{}", new_term.len(), if new_term.contains(&partner) { "-with-a-binary-partner" } else { "" }));
+                terms.push((new_term, *rng.pick(&[1.5, -2.0, 0.25])));
+                let as_quadratic = terms.iter().all(|(i, _)| i.len() <= 2) && rng.bool();
+                inst.objective = Some(if as_quadratic {
+                    let constant: f64 = terms.iter().filter(|(i, _)| i.is_empty()).map(|(_, c)| *c).sum();
+                    let lin = linear(terms.iter().filter(|(i, _)| i.len() == 1).map(|(i, c)| (i[0], *c)).collect(), constant);
+                    f_quadratic(quadratic(terms.iter().filter(|(i, _)| i.len() == 2).map(|(i, c)| (i[0], i[1], *c)).collect(), Some(lin)))
+                } else {
+                    f_polynomial(polynomial(terms))
+                });
                 refuse_pubo = Some("non-binary-variable");
                 refuse_qubo = Some("non-binary-variable");
             }
